@@ -453,6 +453,21 @@ func (c *stepCtx) judge() {
 		out.stat("pause_ticks", len(ticks))
 	} else {
 		outcomes = mc.apply(prevState, op)
+		if op.Plan.NowStepMs != 0 {
+			// the clock moved while the command ran: the effect must be the one of SOME instant between the first
+			// and the last reading (date and time taken from one and the same instant)
+			seen := map[string]bool{c.clock.Format("2006-01-02T15:04"): true}
+			for _, t := range nowReadings(res) {
+				t = t.In(c.clock.Location())
+				if k := t.Format("2006-01-02T15:04"); !seen[k] {
+					seen[k] = true
+					alt := *mc
+					alt.clk = mkClock(t)
+					outcomes = append(outcomes, alt.apply(prevState, op)...)
+					out.stat("clock_minute_changed_during_command", 1)
+				}
+			}
+		}
 	}
 	matched := c.match(outcomes, obsState, obsValid)
 	if matched == nil {
@@ -1182,7 +1197,7 @@ func (c *stepCtx) determinism(hw *histWorld, spec *ProcSpec, env map[string]stri
 			alt.MapTape = []int{1, 1, 1, 1, 1, 1, 1, 1, 1, 1, 1, 1, 1, 1, 1, 1}
 		}
 		if k == 2 {
-			alt.Cpus = []int{1, 2, 3, 8, 33}[r.Intn(5)]
+			alt.Cpus = []int{1, 2, 3, 4, 5, 8, 33}[r.Intn(7)]
 		}
 		alt.Plan = spec.Plan
 		res := runProc(&alt)
